@@ -226,8 +226,9 @@ fn check_buffer(cx: &Ctx, st: &mut St, msgs: &[Msg], with_pending: bool) {
             }
         }
     }
-    // (2) alone vs in sequence (only for buffers the spec calls sound)
-    if fault_msg.is_none() && msgs.len() > 1 {
+    // (2) alone vs in sequence: the handlers a message selects never depend on the messages
+    // before it, faulty ones included (units undefined by context are part of the alphabet)
+    if msgs.len() > 1 {
         let mut cat = Obs::default();
         for m in msgs {
             let (_, ob) = run_obs(&m.bytes(), Pattern::NONE);
